@@ -2068,11 +2068,14 @@ class PPEnumFieldType(FieldType):
         if by_value_cache is None:
             self._verify_fmt_modifier(fmt_modifier)
 
-        if value not in by_value_cache:
+        # values which are equal but print differently (1, True, 1.0) must not
+        # share a cached text
+        cache_key = (type(value), value)
+        if cache_key not in by_value_cache:
             self._make_text_cache_for_val(
                 value, field_palette, by_fmt_cache)
 
-        return by_value_cache[value]
+        return by_value_cache[cache_key]
 
     def _make_text_cache_for_val(self, value, cp, by_fmt_cache) -> None:
         # populate self._cache for value
@@ -2086,21 +2089,23 @@ class PPEnumFieldType(FieldType):
                 # but a single None
                 text_and_alignment = super().make_desired_cell_ch_chunks(
                     value, None, cp)
-                by_fmt_cache['val'][value] = text_and_alignment
-                by_fmt_cache['name'][value] = text_and_alignment
-                by_fmt_cache['full'][value] = text_and_alignment
+                cache_key = (type(value), value)
+                by_fmt_cache['val'][cache_key] = text_and_alignment
+                by_fmt_cache['name'][cache_key] = text_and_alignment
+                by_fmt_cache['full'][cache_key] = text_and_alignment
                 return
             name, syntax_name = self.enum_missing_value
             val_len = max(self.max_val_len, len(str(value)))
 
         color_fmt = cp.get_color(syntax_name)
+        cache_key = (type(value), value)
 
         # 'val' format
         val_text_items, align = super().make_desired_cell_ch_chunks(value, None, cp)
-        by_fmt_cache['val'][value] = (val_text_items, align)
+        by_fmt_cache['val'][cache_key] = (val_text_items, align)
 
         # 'name' format
-        by_fmt_cache['name'][value] = ([color_fmt(name)], align)
+        by_fmt_cache['name'][cache_key] = ([color_fmt(name)], align)
 
         # 'full' format
         full_text_items = []
@@ -2111,7 +2116,7 @@ class PPEnumFieldType(FieldType):
         full_text_items.extend(val_text_items)
         full_text_items.append(cp.text(" "))
         full_text_items.append(color_fmt(name))
-        by_fmt_cache['full'][value] = (full_text_items, ALIGN_LEFT)
+        by_fmt_cache['full'][cache_key] = (full_text_items, ALIGN_LEFT)
 
     def get_cell_text_len(self, value, fmt_modifier) -> int:
         """Calculate length of text representation of the value."""
@@ -2120,10 +2125,11 @@ class PPEnumFieldType(FieldType):
         if by_val_lenghs is None:
             self._verify_fmt_modifier(fmt_modifier)
 
-        if value not in by_val_lenghs:
+        cache_key = (type(value), value)
+        if cache_key not in by_val_lenghs:
             self._make_len_cache_for_val(value)
 
-        return by_val_lenghs[value]
+        return by_val_lenghs[cache_key]
 
     def _make_len_cache_for_val(self, value):
         # populate self._cache_lengths for value
@@ -2135,22 +2141,25 @@ class PPEnumFieldType(FieldType):
                 # special case: cell will not contain enum's value and name,
                 # but a single None
                 text_len = len(str(None))
-                self._cache_lengths['val'][value] = text_len
-                self._cache_lengths['name'][value] = text_len
-                self._cache_lengths['full'][value] = text_len
+                cache_key = (type(value), value)
+                self._cache_lengths['val'][cache_key] = text_len
+                self._cache_lengths['name'][cache_key] = text_len
+                self._cache_lengths['full'][cache_key] = text_len
                 return
             name, _ = self.enum_missing_value
             val_len = max(self.max_val_len, len(str(value)))
 
+        cache_key = (type(value), value)
+
         # 'val' format
-        self._cache_lengths['val'][value] = val_len
+        self._cache_lengths['val'][cache_key] = val_len
 
         # 'name' format
         name_len = len(str(name))
-        self._cache_lengths['name'][value] = name_len
+        self._cache_lengths['name'][cache_key] = name_len
 
         # 'full' format
-        self._cache_lengths['full'][value] = val_len + 1 + name_len
+        self._cache_lengths['full'][cache_key] = val_len + 1 + name_len
 
     def is_fmt_modifier_ok(self, fmt_modifier) -> (bool, str):
         """Chek if fmt_modifier is correct."""
